@@ -9,8 +9,8 @@ From AMV Require Import Model.RpcCodec Spec.C10 Conc.RpcSync Spec.C09.
 Import ListNotations.
 Open Scope N_scope.
 
-(* observed mirror: NetworkMachine.Time / QueueTick / MachineTick / Is1 *)
-Record omir := { m_t : list N; m_q : N; m_m : N; m_a : list bool }.
+(* observed mirror: NetworkMachine.Time / QueueTick / MachineTick / Is1 / Tick *)
+Record omir := { m_t : list N; m_q : N; m_m : N; m_a : list bool; m_c : list N }.
 
 Inductive ostep :=
 | OLocal                                   (* source.Add/Remove/Set *)
@@ -231,6 +231,22 @@ Fixpoint changed_since (l : list orec) (acc : bool) : bool :=
     end
   end.
 
+(* every view of the mirror agrees with every other: the ticks behind
+   Tick / Clock / WhenTime (m_c, an empty list = not sampled) are the ones Time
+   reports, at every observation of the case *)
+Fixpoint nlist_eqb (a b : list N) : bool :=
+  match a, b with
+  | [], [] => true
+  | x :: r, y :: t => (x =? y) && nlist_eqb r t
+  | _, _ => false
+  end.
+Definition view_ok (m : omir) : bool :=
+  match m_c m with [] => true | c => nlist_eqb c (m_t m) end.
+Definition step_mirs (o : orec) : list omir :=
+  o_mir o :: match o_step o with ORace _ _ m2 mr _ _ => [m2; mr] | _ => [] end.
+Definition view_viol (k : c09case) : list N :=
+  if forallb view_ok (k_hello k :: k_final k :: flat_map step_mirs (k_steps k)) then [] else [800].
+
 Definition violations (k : c09case) : list N :=
   if k_err k then [] else
   let c := p_codec (k_p k) in
@@ -243,7 +259,7 @@ Definition violations (k : c09case) : list N :=
   (* the lost-session clause names its own cause *)
   map (fun d => if d =? 520 then 529 else d + cl)
       (dedup (fin ++ flat_map (step_viol k) (k_steps k) ++ ready
-              ++ act_viol k (k_final k))).
+              ++ act_viol k (k_final k) ++ view_viol k)).
 
 Definition check_one (ic : N * c09case) : list (N * N * N) :=
   let '(i, k) := ic in
